@@ -250,6 +250,7 @@ type VMgrEnv struct {
 	Conns     []*VConn // every outbound peer connection handed out by AllocateConn
 	FailAlloc bool     // AllocatePacketConn/AllocateListener/AllocateConn may fail
 	DialGate  chan struct{} // if set: AllocateConn (the outbound dial) waits for the harness
+	IdleRelays bool         // relay sockets stay silent while open (ReadFrom waits) instead of reporting "closed" when their script is exhausted
 	Veto      bool     // the permission handler may refuse (arbitrary verdict per call)
 	VetoLog   []net.IP // IPs the permission handler refused
 	asked     []net.IP // policy memo: the handler is a function of the peer IP
@@ -274,6 +275,9 @@ func VNewManager(failAlloc, veto bool) *VMgrEnv {
 				addr.Port = env.PortScript[n]
 			}
 			pc := &VPacketConn{Name: "relay", Local: addr, Gated: true}
+			if env.IdleRelays {
+				pc.Idle = make(chan struct{})
+			}
 			env.Relays = append(env.Relays, pc)
 			return pc, addr, nil
 		},
